@@ -28,6 +28,8 @@ func main() {
 		props.SrvDebug(os.Args[2:])
 	case "srvchild":
 		props.SrvChild(os.Args[2:])
+	case "syncchild":
+		props.SyncChild(os.Args[2:])
 	case "run":
 		id := os.Args[2]
 		fs := flag.NewFlagSet("run", flag.ExitOnError)
